@@ -8,6 +8,7 @@ A case is {"k": kind, "g": adjacency lists, "items": listing order, "aref": m, "
 that a stack overflow is attributed to the right case."""
 import itertools, json, os, re
 from vlib import *
+from props.kernelcommon import kernel_tie_leg
 
 KIND = {"gen": 0, "tproto": 0, "place": 0, "raw": 1, "rawproto": 1, "tetris": 1, "gds": 2}
 CLASS_PREFIX = {"raw": "raw", "rawproto": "raw", "tetris": "tetris", "gds": "gds", "gen": "generic", "tproto": "tetris-cellorder", "place": "tetris-placeorder"}
@@ -174,6 +175,69 @@ def gen_exhaustive(chk, chunk=200000):
     if buf:
         yield buf
 
+def audit_cases(rng, quick, add, sizes_q):
+    """Families added by the generator audit of 2026-10-02; each input class was absent from the quick tier before.
+    *_listed_twice: the same cell pointer several times in lib.cells (also next to itself); *_views: cells with an abstract view besides
+    the layout, with only an abstract view, with no view at all (raw AND tetris orderers, and both proto exporters); gds_filler:
+    boundary / path / text elements before, between and after the references of a struct; *_deep / *_wide: a 1200-cell chain listed
+    dependents-first (or only its top listed) and 400-cell stars through every embedded orderer; *_empty: a library without cells;
+    *_cycle_unlisted: a cycle that is reached only through cells not listed in lib.cells, and an unreachable cycle next to a DAG;
+    gds cycles closed by an AREF."""
+    emb = ("raw", "rawproto", "tetris", "tproto")
+    for k in emb:
+        for _ in range(12 if quick else 120):
+            n = rng.choice(sizes_q[:8])
+            g = rand_dag(rng, n, maxdeg=rng.choice([1, 2, 4]))
+            items = shuffled(rng, range(n))
+            for _ in range(rng.randint(1, 3)):
+                items.insert(rng.randrange(len(items) + 1), rng.choice(items))
+            if rng.random() < 0.5:
+                x = rng.choice(items)
+                items.insert(items.index(x), x)                    # twice in a row
+            add(k + "_listed_twice", k, g, items)
+        add(k + "_listed_twice", k, [[1], []], [0, 0, 1, 1])
+        add(k + "_listed_twice", k, [[1], []], [1, 0, 1])
+        add(k + "_listed_twice", k, [[1, 1], [2], []], [0, 2, 0])
+        for _ in range(15 if quick else 150):
+            n = rng.choice(sizes_q[:8])
+            g = rand_dag(rng, n, maxdeg=rng.choice([2, 4, 6]))
+            leaves = [v for v in range(n) if not g[v]]
+            nol = [v for v in leaves if rng.random() < 0.35]
+            nov = [v for v in leaves if v not in nol and rng.random() < 0.4]
+            both = [v for v in range(n) if v not in nol and v not in nov and rng.random() < 0.5]
+            items = shuffled(rng, range(n)) if rng.random() < 0.7 else rng.sample(range(n), rng.randrange(1, n + 1))
+            add(k + "_views", k, g, items, nolayout=nol, noview=nov, absalso=both)
+        add(k + "_views", k, [[1, 2, 1], [2, 3], [3], []], [0, 1, 2, 3], absalso=[0, 1, 2, 3])
+        add(k + "_views", k, [[1, 2, 1], [2, 3], [3], []], [0], absalso=[1], nolayout=[3])
+        add(k + "_views", k, [[1, 2], [], []], [0, 2, 1], noview=[1], nolayout=[2])
+        add(k + "_empty", k, [], [])
+        # a cycle reached only through unlisted cells (one process per case); an unreachable cycle beside a DAG is no error
+        add(k + "_cycle_unlisted", k, [[1], [2], [1]], [0], iso=True)
+        add(k + "_cycle_unlisted", k, [[1], [2], [3, 2], []], [0], iso=True)
+        add(k + "_cycle_unlisted", k, [[1], [], [3], [2]], [1, 0], iso=True)
+    for k in ("gen", "place", "gds"):
+        add(k + "_empty", k, [], [])
+    n = 1200
+    chain = [[i + 1] for i in range(n - 1)] + [[]]
+    star = [list(range(1, 400))] + [[] for _ in range(399)]
+    fan = [[]] + [[0] for _ in range(399)]
+    for k in emb + ("gds",):
+        add(k + "_deep", k, chain, list(range(n)))
+        if k != "gds":
+            add(k + "_deep", k, chain, [0])
+        add(k + "_wide", k, star, shuffled(rng, range(400)))
+        add(k + "_wide", k, fan, list(range(399, -1, -1)))
+    add("gds_deep", "gds", chain, list(range(n)), aref=1)
+    for _ in range(24 if quick else 240):
+        m = rng.choice(sizes_q[:8])
+        g = rand_dag(rng, m, maxdeg=rng.choice([1, 2, 4, 6]))
+        add("gds_filler", "gds", g, shuffled(rng, range(m)), aref=rng.choice([0, 1, 2, 3]), filler=rng.choice([1, 1, 2, 3]))
+    add("gds_filler", "gds", [[1, 1, 2], [2], []], [0, 1, 2], filler=1)
+    add("gds_filler", "gds", [[1, 1, 2], [2], []], [0, 1, 2], filler=2, aref=2)
+    add("gds_cyclic", "gds", [[0]], [0], iso=True, aref=1)                     # self-reference through an AREF
+    add("gds_cyclic", "gds", [[1], [0]], [1, 0], iso=True, aref=2)            # two-cycle closed by an AREF
+    add("gds_cyclic", "gds", [[1], [2], [0]], [2, 0, 1], iso=True, aref=1, filler=1)
+
 def gen_cases(chk):
     rng = chk.rng
     quick = chk.tier == "quick"
@@ -274,6 +338,7 @@ def gen_cases(chk):
             if not py_cyclic(g, items):
                 continue
             add(k + "_cyclic", k, g, items, iso=True, aref=rng.choice([0, 2]) if k == "gds" else 0)
+    audit_cases(rng, quick, add, sizes_q)
     add("gds_dangling", "gds", [[1]], [0], iso=True)                     # SREF to a struct that does not exist
     add("gds_dangling", "gds", [[1, 2], []], [0, 1], iso=True)
     add("gds_dangling", "gds", [[1, 2], []], [1, 0], iso=True, aref=1)   # ... through an AREF
@@ -305,7 +370,8 @@ def nlist(xs):
 
 def run_impl(cases):
     bare = lambda c: {"k": c["k"], "g": c["g"], "items": c["items"], "aref": c.get("aref", 0),
-                      "nolayout": c.get("nolayout", []), "dup": c.get("dup", 0)}
+                      "nolayout": c.get("nolayout", []), "dup": c.get("dup", 0), "absalso": c.get("absalso", []),
+                      "noview": c.get("noview", []), "filler": c.get("filler", 0)}
     res = [None] * len(cases)
     main = [i for i, c in enumerate(cases) if not c.get("iso")]
     CH = 200000
@@ -378,8 +444,23 @@ def size_key(c):
     return (len(c["g"]), sum(len(r) for r in c["g"]), len(c["items"]))
 
 def run(chk, replay=None):
-    chk.proof_leg(["Order/DepOrderCheck.vo"], "Properties/C17.v", ["Order/DepOrder_proofs.v", "Order/DepOrderFixed_proofs.v"], "Properties.C17")
+    chk.proof_leg(["Order/DepOrderCheck.vo"], "Properties/C17.v",
+                  ["Order/DepOrder_proofs.v", "Order/DepOrderFixed_proofs.v", "Order/KernelsTieOrder_proofs.v", "Order/KernelsTieOrderRaw_proofs.v",
+                   "Tetris/KernelsTieOrderTetris_proofs.v"], "Properties.C17")
     chk.c17_kinds, variant = model_kinds()
+    # the orderers GENERATED from the sources of this tree = the model functions (Properties/KernelsOrder.v, KernelsOrderTetris.v):
+    # DepOrderer::push / order; raw DepOrder and GdsDepOrder; tetris DepOrder, PlaceOrder::process, CellOrder::process.
+    # The ties of the three hand-rolled orderers are to the model of the REPAIRED code (Order/DepOrderFixed.v): they are
+    # checked when the source carries the repair (the same marker that chooses the model for the correspondence run).
+    kernel_tie_leg(chk, "order_generic")
+    if variant["raw"] and variant["gds"]:
+        kernel_tie_leg(chk, "order_raw")
+    else:
+        chk.notes.append("kernel tie order_raw not checked: the raw / GDS orderer of this tree is the code as found (no pending set); the tie is stated for the repaired orderers")
+    if variant["tetris"]:
+        kernel_tie_leg(chk, "order_tetris")
+    else:
+        chk.notes.append("kernel tie order_tetris not checked: the tetris orderer of this tree is the code as found (no pending set); the tie is stated for the repaired orderer")
     chk.cov["model_variant"] = {k: ("repaired (order_checked)" if v else "as found: no pending set (order_nopending)") for k, v in variant.items()}
     chk.assumptions += [
         "`process` of the generic helper is modelled as `push every dependency, propagate the error` (what PlaceOrder, CellOrder and the harness instance do); a user-supplied `process` doing anything else is outside the model",
@@ -407,7 +488,7 @@ def run(chk, replay=None):
     distinct = set()
     distinct_enum = 0
     bad, mism, viol, unpredicted = [], [], [], []
-    slim = lambda c: {k: c[k] for k in ("k", "g", "items", "aref", "fam") if k in c}
+    slim = lambda c: {k: c[k] for k in ("k", "g", "items", "aref", "fam", "nolayout", "dup", "absalso", "noview", "filler") if k in c}
     for si, cases in enumerate(streams):
         res, codes, agree = evaluate(chk, cases, "c17_%03d" % si)
         total += len(cases)
